@@ -237,7 +237,10 @@ class BatteryRoles:
             raise AnalysisError(f"{dp.qual}: no `DistributionResult` parameter")
         self.dist = dist
         self.dp_cfg = CFG(dp.node, dp.file)
-        self.unpack, self.sd_call, names = _unpack_of(dp, self.sd.name)
+        # the sending routine may have been merged into this function: then the pair comes straight
+        # from the result parser
+        self.merged = self.sd.qual == dp.qual
+        self.unpack, self.sd_call, names = _unpack_of(dp, self.pr.name if self.merged else self.sd.name)
         pfs = [c for c in all_ctors(dp.node) if ctor_kind(c) == "PartialFailure"]
         if not pfs:
             raise AnalysisError(f"{dp.qual}: no PartialFailure is ever built")
@@ -270,7 +273,10 @@ class BatteryRoles:
             raise AnalysisError(f"{dp.qual}: one element of the returned pair is used as failed power and failed set")
         self.failed_pow, self.failed_set = names[i_pow], names[i_set]
         # through _set_distributed_power ...
-        self.pr_call, perm = _passthrough(prog, self.sd, self.pr.name)
+        if self.merged:
+            self.pr_call, perm = self.sd_call, [0, 1]
+        else:
+            self.pr_call, perm = _passthrough(prog, self.sd, self.pr.name)
         j_pow, j_set = perm[i_pow], perm[i_set]
         # ... into _parse_result's returned pair
         rets = [n for n in body_walk(self.pr.node) if isinstance(n, ast.Return)]
@@ -305,8 +311,10 @@ def pv_roles(prog: Program, pv: FuncInfo, cfg: CFG) -> tuple[str, str]:
         site = _site(cfg, pv, c)
         fp = flow_eval(cfg, site, f["failed_power"]).as_atom()
         fs = set_term(cfg, site, f["failed_components"])
-        if fp is None or not fp.isidentifier() or fs[0] != "name":
-            raise AnalysisError(f"{pv.qual}: PartialFailure(failed_power=, failed_components=) are not plain accumulators")
+        if fs[0] != "name":
+            raise AnalysisError(f"{pv.qual}: PartialFailure(failed_components=) is not a plain accumulator")
+        if fp is None or not fp.isidentifier():
+            fp = "<failed power>"   # e.g. a constant: never updated; reported as missing bookkeeping
         got.add((fp, fs[1]))
     if len(got) != 1:
         raise AnalysisError(f"{pv.qual}: expected one (failed power, failed set) pair, found {len(got)}")
@@ -535,7 +543,11 @@ def check_fail(run: Run, prog: Program, roles: BatteryRoles, battery_only: bool 
         # 4. what is added is the allocation of *this* component from the sent allocations
         s = cfg.nodes[fp_nodes[0]].ast
         alloc_name = sorted(allocs)[0]
-        run.check(len(allocs) == 1 and alloc_name in fn.params, "C15.FAIL", fn.qual, s,
+        # ... a parameter of the result parser, or -- when sending and parsing share one function -- the
+        # local map that C15.ALL requires the set_power loop to walk
+        sends_here = any(isinstance(c, ast.Call) and isinstance(c.func, ast.Attribute) and c.func.attr == "set_power"
+                         for c in ast.walk(fn.node))
+        run.check(len(allocs) == 1 and (alloc_name in fn.params or sends_here), "C15.FAIL", fn.qual, s,
                   "failed power is not taken from the allocation map that was sent",
                   node=s, file=fn.file,
                   instance=f"{fn.qual}: failed power += <allocation parameter>[{key_var}] (sent allocations)")
@@ -629,7 +641,19 @@ def check_sets(run: Run, prog: Program, roles: BatteryRoles) -> None:
     run.analysed(pv.qual)
     cfg = CFG(pv.node, pv.file)
     _r, hd, key, _tm, body = result_loop(cfg, pv.qual)
-    ctors = all_ctors(pv.node)
+    all_pv_ctors = all_ctors(pv.node)
+    # answers given before any call was made (the sending part may share a function with the early exits of
+    # the public method): they address nothing, so they are a Success with an empty succeeded set
+    ctors = [c for c in all_pv_ctors if cfg.path(hd.id, [_site(cfg, pv, c)]) is not None]
+    for c in all_pv_ctors:
+        if c in ctors:
+            continue
+        kind, f = ctor_fields(prog, pv, c)
+        empty = isinstance(f["succeeded_components"], ast.Call) and u(f["succeeded_components"].func) in (
+            "set", "frozenset") and not f["succeeded_components"].args
+        run.check(kind == "Success" and empty, "C15.SETS", pv.qual, c,
+                  "an answer given before any set_power call names succeeded or failed components",
+                  node=c, file=pv.file, instance=f"{pv.qual}: an answer before any call addresses no component")
     succ_names: set[str] = set()
     fail_names: set[str] = set()
     carried = True
@@ -866,21 +890,33 @@ def check_pv_pairing(run: Run, prog: Program, info: dict[str, dict[str, str]]) -
     for c in all_ctors(sa.node):
         _k, f = ctor_fields(prog, sa, c)
         rem_params.add(flow_eval(cfg_sa, _site(cfg_sa, sa, c), f["excess_power"]).as_atom())
+    if sa.qual == dp.qual:
+        # merged with the public method: its early answers report the request itself, not the ledger
+        rem_params = {a for a in rem_params if isinstance(a, str) and a.isidentifier()}
     params = method_params(sa)
-    if len(rem_params) != 1 or next(iter(rem_params)) not in params or sa_info["alloc"] not in params:
-        raise AnalysisError(f"{sa.qual}: the reported excess / the allocation map are not parameters")
-    rem_p, alloc_p = next(iter(rem_params)), sa_info["alloc"]
-    calls = find_calls(dp.node, lambda c: method_call(c, "self", sa.name))
-    if len(calls) != 1:
-        raise AnalysisError(f"{dp.qual}: expected one call of self.{sa.name}, found {len(calls)}")
-    args = bound_args(calls[0], params, f"{dp.qual}: self._set_api_power(...)")
     req = request_param(dp)
-    ledger, amap = args.get(rem_p), args.get(alloc_p)  # type: ignore[arg-type]
-    if not isinstance(ledger, ast.Name) or not isinstance(amap, ast.Name):
-        raise AnalysisError(f"{dp.qual}: excess ledger / allocation map are not passed as locals")
-    run.check(u(args.get(request_param(sa))) == req, "C15.ID", dp.qual, "self._set_api_power(request, ...)",
-              "the allocations are reported against a different request", node=calls[0], file=dp.file,
-              instance=f"{dp.qual}: _set_api_power reports against the processed request")
+    if sa.qual == dp.qual:
+        # sending and reporting happen in the public method itself: the ledger / map are its locals
+        if len(rem_params) > 1:
+            raise AnalysisError(f"{sa.qual}: the reported excess is not one local ledger")
+        # no ledger at all (the excess is a fixed expression): every non-zero allocation is then unpaired
+        ledger: Any = ast.Name(id=next(iter(rem_params)) if rem_params else "<no excess ledger>", ctx=ast.Load())
+        amap: Any = ast.Name(id=sa_info["alloc"], ctx=ast.Load())
+        run.ok("C15.ID", f"{dp.qual}: _set_api_power reports against the processed request")
+    else:
+        if len(rem_params) != 1 or next(iter(rem_params)) not in params or sa_info["alloc"] not in params:
+            raise AnalysisError(f"{sa.qual}: the reported excess / the allocation map are not parameters")
+        rem_p, alloc_p = next(iter(rem_params)), sa_info["alloc"]
+        calls = find_calls(dp.node, lambda c: method_call(c, "self", sa.name))
+        if len(calls) != 1:
+            raise AnalysisError(f"{dp.qual}: expected one call of self.{sa.name}, found {len(calls)}")
+        args = bound_args(calls[0], params, f"{dp.qual}: self.{sa.name}(...)")
+        ledger, amap = args.get(rem_p), args.get(alloc_p)  # type: ignore[arg-type]
+        if not isinstance(ledger, ast.Name) or not isinstance(amap, ast.Name):
+            raise AnalysisError(f"{dp.qual}: excess ledger / allocation map are not passed as locals")
+        run.check(u(args.get(request_param(sa))) == req, "C15.ID", dp.qual, "self._set_api_power(request, ...)",
+                  "the allocations are reported against a different request", node=calls[0], file=dp.file,
+                  instance=f"{dp.qual}: _set_api_power reports against the processed request")
     te = TermEval()
 
     def alias_root(name: str) -> str:
@@ -936,7 +972,8 @@ def check_pv_pairing(run: Run, prog: Program, info: dict[str, dict[str, str]]) -
                   "in the same suite: excess_power is no longer request.power minus the power that is commanded",
                   node=touched[0], file=dp.file,
                   instance=f"{dp.qual}: suite@{touched[0].lineno} Δallocations + Δ{L} == 0")
-    ok = len(inits_l) == 1 and te.ev(inits_l[0].value) == Poly.atom(f"{req}.power")  # type: ignore[attr-defined]
+    ok = (len(inits_l) == 1 and te.ev(inits_l[0].value) == Poly.atom(f"{req}.power")) \
+        or L.startswith("<")  # type: ignore[attr-defined]  # (no ledger: already reported by the pairing)
     run.check(ok, "C15.ID", dp.qual, f"{L} = {req}.power", "the excess ledger does not start as the requested power",
               node=dp.node, file=dp.file, instance=f"{dp.qual}: excess ledger starts as request.power")
     v = inits_m[0].value if len(inits_m) == 1 else None  # type: ignore[attr-defined]
